@@ -1,13 +1,77 @@
 (* C10 -- pack_partitions_to_parquet leaves a complete, clean, re-readable dataset.
    Statements only; proofs live in Proofs/. *)
-From Coq Require Import ZArith List Bool Arith String.
-From SP Require Import Harness Model.FS Model.PackFS Model.Retry Spec.PackSpec Proofs.PackExamples.
+From Coq Require Import ZArith List Bool Arith String Permutation.
+From SP Require Import Harness Model.FS Model.PackFS Model.Retry Spec.PackSpec Proofs.PackExamples
+  Proofs.PackProofs.
 Import ListNotations.
 
+(* C10_layout + C10_content.  For EVERY number of requested partitions, EVERY number of input
+   partitions and EVERY assignment matrix (which (input, output) cells are non-empty), the
+   three temp-directory modes (inside the dataset; external with any parent path, existing
+   or not), ANY order in which the tasks run, overwrite or not, and ANY prior tree
+   ([prior_ok]: a tree with unique paths, no file where a directory is needed on the way,
+   the external temp directories not yet there, and -- without overwrite -- nothing at the
+   dataset path): the call returns, and the tree it leaves is, path by path,
+   [expected_node]:
+     - below the dataset path exactly part.0 .. part.(m-1) as FILES (m = number of non-empty
+       outputs), _metadata, _common_metadata, and nothing else (no placeholder directory, no
+       temp directory, no sub-part file, nothing of a prior dataset);
+     - everywhere else the prior tree, untouched, plus the directories makedirs creates on
+       the way to the dataset path and to the external temp parent (see
+       C10_uuid_parent_left_refuted and C10_outside_untouched);
+   and part j holds exactly the rows (cells) of the j-th non-empty output. *)
+Theorem C10_layout : forall f0 cfg asg,
+  prior_ok f0 cfg -> tmp_separate cfg -> wf_asg (c_k cfg) asg -> wf_orders cfg asg ->
+  nonempty_outputs (c_k cfg) asg <> [] ->
+  exists parts f1,
+    pack f0 cfg asg = OK parts f1 /\
+    (forall q, node_at f1 q = expected_node f0 cfg parts q) /\
+    Forall2 (fun p N => Permutation p (cells_of asg N)) parts (nonempty_outputs (c_k cfg) asg).
+Proof. exact pack_layout. Qed.
+Print Assumptions C10_layout.
+
+(* C10_content, separately: the returned parts are the cells of the non-empty outputs, in
+   order, each as a multiset *)
+Theorem C10_content : forall f0 cfg asg,
+  prior_ok f0 cfg -> tmp_separate cfg -> wf_asg (c_k cfg) asg -> wf_orders cfg asg ->
+  nonempty_outputs (c_k cfg) asg <> [] ->
+  exists parts f1,
+    pack f0 cfg asg = OK parts f1 /\
+    Forall2 (fun p N => Permutation p (cells_of asg N)) parts (nonempty_outputs (c_k cfg) asg).
+Proof. exact pack_content. Qed.
+Print Assumptions C10_content.
+
+(* C10_overwrite: whatever tree was at the dataset path, after the call the dataset directory
+   is exactly the new dataset *)
+Theorem C10_overwrite : forall f0 cfg asg,
+  prior_ok f0 cfg -> tmp_separate cfg -> wf_asg (c_k cfg) asg -> wf_orders cfg asg ->
+  nonempty_outputs (c_k cfg) asg <> [] ->
+  exists parts f1,
+    pack f0 cfg asg = OK parts f1 /\
+    List.length parts = List.length (nonempty_outputs (c_k cfg) asg) /\
+    forall q rl, strip_prefix (c_path cfg) q = Some rl -> node_at f1 q = dataset_node parts rl.
+Proof. exact pack_overwrite. Qed.
+Print Assumptions C10_overwrite.
+
+(* nothing temporary is left outside either, provided the directories on the way existed *)
+Theorem C10_outside_untouched : forall f0 cfg asg,
+  prior_ok f0 cfg -> tmp_separate cfg -> wf_asg (c_k cfg) asg -> wf_orders cfg asg ->
+  nonempty_outputs (c_k cfg) asg <> [] ->
+  (forall q, on_the_way q (parent (c_path cfg)) = true -> node_at f0 q = Some Dir) ->
+  match c_tmp cfg with
+  | TInside => True
+  | TExternal t => forall q, on_the_way q t = true -> node_at f0 q = Some Dir
+  end ->
+  exists parts f1,
+    pack f0 cfg asg = OK parts f1 /\
+    forall q, is_prefix (c_path cfg) q = false -> node_at f1 q = node_at f0 q.
+Proof. exact pack_outside_untouched. Qed.
+Print Assumptions C10_outside_untouched.
+
 (* "no temporary directories outside the dataset" is false when the temp-directory format
-   has a directory above the per-partition leaf (tmp/{uuid}/t{partition}): after a successful
-   call a directory exists outside the dataset that did not exist before (recorded finding
-   `tempdir-parent-left`) *)
+   has a directory above the per-partition leaf that does not exist yet
+   (tmp/{uuid}/t{partition}): after a successful call a directory exists outside the dataset
+   that did not exist before (recorded finding `tempdir-parent-left`) *)
 Theorem C10_uuid_parent_left_refuted :
   exists f0 cfg asg parts f1 q,
     pack f0 cfg asg = OK parts f1 /\
@@ -15,6 +79,18 @@ Theorem C10_uuid_parent_left_refuted :
     node_at f0 q = None /\ node_at f1 q = Some Dir.
 Proof. exact uuid_parent_left. Qed.
 Print Assumptions C10_uuid_parent_left_refuted.
+
+(* non-vacuity: the premises of C10_layout hold for setup M (harness/c19.py): a prior dataset
+   with debris, overwrite, 4 requested partitions one of which stays empty, task orders
+   [1;0] and [3;2;1;0], default and external temp directories *)
+Example C10_premises_M_inside :
+  prior_ok priorM (cfgM TInside) /\ tmp_separate (cfgM TInside) /\ wf_asg 4 asgM /\
+  wf_orders (cfgM TInside) asgM /\ nonempty_outputs 4 asgM <> [].
+Proof. exact premises_M_inside. Qed.
+Example C10_premises_M_flat :
+  prior_ok priorM (cfgM (TExternal [])) /\ tmp_separate (cfgM (TExternal [])) /\ wf_asg 4 asgM /\
+  wf_orders (cfgM (TExternal [])) asgM /\ nonempty_outputs 4 asgM <> [].
+Proof. exact premises_M_flat. Qed.
 
 (* non-vacuity: the fault-free runs of setup M (harness/c19.py) in the three modes end in
    exactly keep/ + the dataset {part.0, part.1, part.2, _metadata, _common_metadata}
